@@ -292,6 +292,15 @@ def _m_malloc(it, ctx, n, a):
     return Obj(None, lazy=False)
 
 
+# <stdio.h> calls that write no text: they report on the stream or release it.  The printer is analysed for a stream that
+# takes everything written to it (they answer 0); Printer.status_paths() decides that no other answer reaches the printer's end
+STATUS = ('fflush', 'ferror', 'fclose')
+
+
+def _m_stream_ok(it, ctx, n, a):
+    return 0
+
+
 MODELS = {'strlen': _m_strlen, 'strcmp': _m_strcmp, 'strncmp': _m_strncmp, 'strcasecmp': _m_strcasecmp, 'strncasecmp': _m_strncasecmp,
           'memcmp': _m_memcmp, 'strchr': _m_strchr, 'strrchr': _m_strrchr, 'strstr': _m_strstr, 'strspn': _m_strspn, 'strcspn': _m_strcspn,
           'strpbrk': _m_strpbrk, 'memchr': _m_memchr, '__ctype_b_loc': _m_ctype_b_loc, 'tolower': _m_tolower, 'toupper': _m_toupper,
